@@ -29,6 +29,8 @@ DEFAULTS = dict(
     min_list_len=0,      # C05: 1 keeps empty list literals (type not ground) away
     p_head_perm=0.0,     # named head arguments listed in a drawn order (per rule / fact)
     p_if_composite=0.0,  # if-then-else whose branches are lists / records
+    allow_mba_head_perm=False,
+    avoid_d11=True,      # known finding C01 D11 (see gen.cmp); False re-derives it
     p_recif=0.0,         # a variable bound to a record-valued if-then-else, read >= 2 times
 )
 
@@ -191,7 +193,8 @@ class Gen(object):
                 self.excl('same_text_equation')
             else:
                 for x, y in ((a, b), (b, a)):
-                    if x[0] == 'var' and (expr_vars(y) - self.roots):
+                    if self.o['avoid_d11'] and x[0] == 'var' and \
+                            (expr_vars(y) - self.roots):
                         # D11 class: bare variable equated with an expression over
                         # variables that may be derived from it
                         op = '<='
@@ -665,7 +668,13 @@ class Gen(object):
                 opts.append('colnames')
             if self.chance(o['p_short']):
                 opts.append('short')
-            head = self.maybe_permute_head(head, opts)
+            if distinct and nrules > 1 and not o.get('allow_mba_head_perm'):
+                # open known finding (C02 mba_named_head_order): multi-body aggregation
+                # refuses bodies that list their named head arguments in another order
+                if o['p_head_perm'] and len(head) >= 2 and self.chance(o['p_head_perm']):
+                    self.excl('mba_named_head_order')
+            else:
+                head = self.maybe_permute_head(head, opts)
             rules.append(mk_rule(name, head, body, value=val, distinct=distinct,
                                  opts=opts))
         if distinct:
